@@ -56,6 +56,10 @@ class Tr:
                 raise Unsupported("numel of a scalar")
             return "R", "(t_numel %s)" % x
         n = qname(f)
+        if n == "_norm" and len(e.args) == 1 and not e.keywords:
+            # logic._norm: the Frobenius norm computed on an orthogonalised copy (tensor unchanged and norm = norm of the
+            # first core by C13_orthogonalize / C13_norm); translated as the norm it computes
+            n = "tn.norm"
         if n == "tn.norm" and len(e.args) == 1 and "tn.norm" in self.defined:
             pass
         if n in ("torch.sqrt", "np.sqrt") and len(e.args) == 1:
